@@ -1447,7 +1447,8 @@ impl ReaderState {
         let expr = attr.get(ATTR_EXPR);
 
         let content = if has_content {
-            Some(self.read_content(TAG_CONTENT, reader))
+            // <content ...></content> is the same as <content .../>
+            Some(self.read_content(TAG_CONTENT, reader)).filter(|c| !c.is_empty())
         } else {
             None
         };
@@ -1603,15 +1604,19 @@ impl ReaderState {
             assign.expr = self.create_source(expr_value);
         }
 
-        let assign_text = if has_content {
-            format!(
-                "\"{}\"",
-                self.read_content(TAG_ASSIGN, reader)
-                    .replace("\"", "\\\"")
-                    .replace("\n", " ")
-            )
+        let assign_content = if has_content {
+            self.read_content(TAG_ASSIGN, reader)
         } else {
             String::new()
+        };
+        // <assign ...></assign> is the same as <assign .../>
+        let assign_text = if assign_content.is_empty() {
+            String::new()
+        } else {
+            format!(
+                "\"{}\"",
+                assign_content.replace("\"", "\\\"").replace("\n", " ")
+            )
         };
 
         let assign_src = assign_text.trim();
